@@ -1,7 +1,8 @@
 /-
   The parser of the RFC-1123 model is sound: a string is accepted only if — up to letter case and
   the (unchecked, as in `strptime`) weekday name — it is exactly the rendering `formatChars t` of
-  the instant `t` returned.  Helper lemmas for C20.
+  the instant `t` returned, or that rendering without the leading zero of a day of month 01..09.
+  Helper lemmas for C20.
 -/
 import AcnProofs.Lemmas.CalendarHttpDate
 namespace Acn.HttpDate
@@ -162,13 +163,13 @@ theorem digit_lower {n : Int} : (digit n).toLower = digit n := by
   repeat' split
   all_goals decide
 
-theorem parseChars_sound {l : List Char} {t : Int} (h : parseChars l = some t) :
+theorem parseCanon_sound {l : List Char} {t : Int} (h : parseCanon l = some t) :
     l.length = 29 ∧
     (∃ w, 0 ≤ w ∧ w < 7 ∧ (l.take 3).map Char.toLower =
       [(wdName w).1.toLower, (wdName w).2.1.toLower, (wdName w).2.2.toLower]) ∧
     (l.drop 3).map Char.toLower = ((formatChars t).drop 3).map Char.toLower ∧
     1 ≤ (fieldsOfSeconds t).y ∧ (fieldsOfSeconds t).y ≤ 9999 := by
-  unfold parseChars at h
+  unfold parseCanon at h
   split at h
   · split at h
     · rename_i hp
@@ -203,5 +204,53 @@ theorem parseChars_sound {l : List Char} {t : Int} (h : parseChars l = some t) :
       · simp at h
     · simp at h
   · simp at h
+
+/-- what `parseCanon_sound` says: `c` is — up to letter case and the unchecked weekday name — the
+    canonical 29-character rendering of `t`, and `t` lies in the years 1–9999 -/
+def CanonOf (t : Int) (c : List Char) : Prop :=
+  c.length = 29 ∧
+  (∃ w, 0 ≤ w ∧ w < 7 ∧ (c.take 3).map Char.toLower =
+    [(wdName w).1.toLower, (wdName w).2.1.toLower, (wdName w).2.2.toLower]) ∧
+  (c.drop 3).map Char.toLower = ((formatChars t).drop 3).map Char.toLower ∧
+  1 ≤ (fieldsOfSeconds t).y ∧ (fieldsOfSeconds t).y ≤ 9999
+
+/-- soundness for both shapes: an accepted string is a canonical rendering `c` of the instant
+    returned, or such a `c` whose day of month starts with `0`, with that zero left out -/
+theorem parseChars_sound {l : List Char} {t : Int} (h : parseChars l = some t) :
+    ∃ c, CanonOf t c ∧ (l = c ∨ (c[5]? = some '0' ∧ l = c.eraseIdx 5)) := by
+  by_cases h28 : l.length = 28
+  · simp only [parseChars, h28, ↓reduceIte] at h
+    exact ⟨padDay l, parseCanon_sound h, Or.inr ⟨padDay_get5 (by omega), (eraseIdx_padDay (by omega)).symm⟩⟩
+  · rw [parseChars_of_length h28] at h
+    exact ⟨l, parseCanon_sound h, Or.inl rfl⟩
+
+/-- only strings of 28 or 29 characters parse -/
+theorem parseChars_length {l : List Char} {t : Int} (h : parseChars l = some t) :
+    l.length = 28 ∨ l.length = 29 := by
+  by_cases h28 : l.length = 28
+  · exact Or.inl h28
+  · rw [parseChars_of_length h28] at h
+    exact Or.inr (parseCanon_sound h).1
+
+theorem digit_eq_zero {n : Int} (h0 : 0 ≤ n) (h9 : n ≤ 9) (h : digit n = '0') : n = 0 := by
+  have : n = 0 ∨ n = 1 ∨ n = 2 ∨ n = 3 ∨ n = 4 ∨ n = 5 ∨ n = 6 ∨ n = 7 ∨ n = 8 ∨ n = 9 := by omega
+  rcases this with rfl | rfl | rfl | rfl | rfl | rfl | rfl | rfl | rfl | rfl <;>
+    first | rfl | (exact absurd h (by decide))
+
+/-- a canonical string whose day of month starts with `0` denotes a day 1..9 -/
+theorem canon_day_lt_ten {t : Int} {c : List Char} (hc : CanonOf t c) (h5 : c[5]? = some '0') :
+    (fieldsOfSeconds t).d < 10 := by
+  obtain ⟨_, _, hd, _, _⟩ := hc
+  obtain ⟨_, _, d1, d31, _⟩ := fieldsOfSeconds_ranges t
+  have hd31 : (fieldsOfSeconds t).d ≤ 31 := by
+    have := (monthLen_le (isLeap (fieldsOfSeconds t).y) (fieldsOfSeconds t).mo)
+    rw [daysInMonth_eq] at d31; omega
+  have e : ((c.drop 3).map Char.toLower)[2]? = some '0' := by
+    rw [List.getElem?_map, List.getElem?_drop, h5]; rfl
+  rw [hd] at e
+  simp only [formatChars, List.drop, List.map, digit_lower] at e
+  have : digit ((fieldsOfSeconds t).d / 10) = '0' := by simpa using e
+  have := digit_eq_zero (by omega) (by omega) this
+  omega
 
 end Acn.HttpDate
